@@ -97,7 +97,7 @@ func runTrial(tr trial) (violation string, out outcome) {
 		case d < 0:
 			select {
 			case <-e.Canceled():
-			case <-time.After(50 * time.Second):
+			case <-harness.After(50 * time.Second):
 			}
 		case d == 0:
 		case tr.Spin:
@@ -206,7 +206,7 @@ func runTrial(tr trial) (violation string, out outcome) {
 	}()
 	select {
 	case <-returned:
-	case <-time.After(35 * time.Second):
+	case <-harness.After(35 * time.Second):
 		// the only things that last longer than the limit here are a function blocked until cancellation and 1-hour
 		// permit waits: the timeout's cancellation did not reach them
 		return fmt.Sprintf("the call had not returned 35s after a time limit of %v: cancellation did not reach what the Timeout encloses", limit), out
@@ -237,8 +237,8 @@ func runTrial(tr trial) (violation string, out outcome) {
 		if tr.Placement == "hedge(timeout)" {
 			want = 2
 		}
-		deadline := time.Now().Add(30 * time.Second)
-		for listener.Load() < want && time.Now().Before(deadline) {
+		deadline := harness.Wait(30 * time.Second)
+		for listener.Load() < want && !deadline.Expired() {
 			time.Sleep(100 * time.Microsecond)
 		}
 		time.Sleep(2*limit + 30*time.Millisecond)
@@ -367,9 +367,9 @@ func runTrial(tr trial) (violation string, out outcome) {
 	}
 
 	// ---- the listener: exactly once per timeout arm, never otherwise (waiting can only find more) ----
-	deadline := time.Now().Add(30 * time.Second)
+	deadline := harness.Wait(30 * time.Second)
 	for int(listener.Load()) < expectedListener {
-		if time.Now().After(deadline) {
+		if deadline.Expired() {
 			return fmt.Sprintf("OnTimeoutExceeded called %d times, expected %d (waited 30s)", listener.Load(), expectedListener), out
 		}
 		time.Sleep(100 * time.Microsecond)
@@ -384,7 +384,7 @@ func runTrial(tr trial) (violation string, out outcome) {
 	if last != nil {
 		if timeoutArm {
 			for !last.exec.IsCanceled() || last.exec.Context().Err() == nil {
-				if time.Now().After(deadline) {
+				if deadline.Expired() {
 					return "timeout arm: the execution seen by the function was never cancelled", out
 				}
 				time.Sleep(100 * time.Microsecond)
